@@ -159,6 +159,7 @@ pub fn run_check(id: &str, tier: &str) -> i32 {
     let idh = id.bytes().fold(0xcbf29ce484222325u64, |h, b| (h ^ b as u64).wrapping_mul(0x00000100000001B3));
     // C22 and C23 share runs: same seeds
     let idh = if id == "C23" { "C22".bytes().fold(0xcbf29ce484222325u64, |h, b| (h ^ b as u64).wrapping_mul(0x00000100000001B3)) } else { idh };
+    let digest_log: Option<Mutex<std::fs::File>> = std::env::var("VERIF_DIGEST_LOG").ok().and_then(|p| std::fs::File::create(p).ok()).map(Mutex::new);
     std::thread::scope(|s| {
         for _ in 0..workers {
             s.spawn(|| loop {
@@ -171,6 +172,10 @@ pub fn run_check(id: &str, tier: &str) -> i32 {
                 }
                 let seed_r = crate::mix(crate::mix(base_seed, idh), i);
                 let r = run_child(id, seed_r, 100);
+                if let (Some(l), Ok(res)) = (digest_log.as_ref(), r.as_ref()) {
+                    use std::io::Write;
+                    let _ = writeln!(l.lock().unwrap(), "{} {} {}", i, seed_r, res.digest);
+                }
                 let mut recheck = None;
                 if i % 50 == 7 {
                     recheck = Some(run_child(id, seed_r, 100));
